@@ -283,13 +283,14 @@ def handle_gen(rng, tier):
             q, name, qtype, qclass = gen_query(rng, cfg, idx)
             l = rng.choice(["udp", "udp", "tcp", "gnet", "http-get", "http-post", "fasthttp-get", "fasthttp-post"])
             if tls_on and rng.random() < 0.6:
-                l = rng.choice(["tls", "https-get", "https-post", "quic", "quic", "udpmr", "udpmr"])
+                l = rng.choice(["tls", "https-get", "https-post", "quic", "quic", "udpmr", "udpmr",
+                                "tcpunix", "gnetunix", "httpunix-get", "httpunix-post", "fasthttpunix-get", "fasthttpunix-post"])
             client = "-"
             if l.startswith("http") or l.startswith("fasthttp"):
                 client = rng.choice(["-", "192.0.2.%d" % rng.randrange(256), "203.0.113.7", "2001:db8:1:2:3:4:5:%x" % rng.randrange(65536),
                                      "::ffff:198.51.100.%d" % rng.randrange(256), "::1", "fe80::1"])
                 hv = ""
-            elif l != "udpmr" and rng.random() < 0.4:
+            elif l != "udpmr" and not l.endswith("unix") and rng.random() < 0.4:
                 # the client's SOURCE address on the socket listeners (any address of 127/8 is local): what the proxy sees
                 # as the peer decides ECS, limiter subnet and cache group on udp / tcp / gnet / tls / quic too
                 client = "127.%d.%d.%d" % (rng.choice([0, 1, 9, 200]), rng.randrange(256), rng.randrange(1, 255))
